@@ -151,7 +151,9 @@ PROBE_CMD(udq_sched) {
     pc.update(Opm::ParseContext::PARSE_MISSING_INCLUDE, Opm::InputErrorAction::THROW_EXCEPTION);
     Opm::ErrorGuard errors;
     try {
-        const auto deck = Opm::Parser{}.parseString(jstr(req, "deck"), pc, errors);
+        // the Parser (keyword table, ~100 ms to construct) is immutable configuration, not state: built once
+        static const Opm::Parser parser;
+        const auto deck = parser.parseString(jstr(req, "deck"), pc, errors);
         Opm::EclipseGrid grid(10, 10, 10);
         Opm::TableManager table(deck);
         Opm::FieldPropsManager fp(deck, Opm::Phases{true, true, true}, grid, table);
